@@ -686,6 +686,12 @@ pub(crate) fn openat2<Fd: AsFd, P: AsRef<Path>>(
     // RESOLVE_IN_ROOT handles that correctly in a race-free way.
     let mut how = how.clone();
     how.flags |= libc::O_CLOEXEC as u64;
+    // Like openat(), make sure a malicious file cannot become our controlling
+    // terminal. openat2(2) rejects O_PATH combined with O_NOCTTY (and O_PATH
+    // never opens the device anyway), so only add it for real opens.
+    if how.flags & libc::O_PATH as u64 == 0 {
+        how.flags |= libc::O_NOCTTY as u64;
+    }
 
     // ToCString truncates at the first NUL byte, which would make the kernel
     // resolve a different path than the one we were asked for. Reject such
